@@ -218,6 +218,8 @@ func (o Op) String() string {
 		return fmt.Sprintf("in-place edit of list element %d (subid=%v) through the accessor's slice", o.N, o.Flag)
 	case "editfilter":
 		return fmt.Sprintf("Filters()[%d].SetFilter(len %d)/SetOptions(%d)", o.N, len(o.B), o.ID)
+	case "editwill":
+		return fmt.Sprintf("c.Will().AddUserProp(%d pairs): edit the attached will through the accessor, no new SetWill", len(o.KV))
 	case "rewill":
 		return fmt.Sprintf("change the attached will (qos %d retain %v payload %d bytes) and SetWill(it) again", o.Will.QoS, o.Will.Retain, len(o.Will.Payload))
 	case "filters":
@@ -577,6 +579,17 @@ func Apply(p mq.Packet, o Op) error {
 		i := int(o.N) % len(x.Filters())
 		x.Filters()[i].SetFilter(string(o.B))
 		x.Filters()[i].SetOptions(mq.Opt(o.ID))
+	case "editwill":
+		// what Will() returns IS the attached message (SetWill keeps the pointer):
+		// user properties added through it belong to the CONNECT's will
+		cn := p.(*mq.Connect)
+		if w := cn.Will(); w != nil {
+			args := make([]string, 0, 2*len(o.KV))
+			for _, kv := range o.KV {
+				args = append(args, string(kv[0]), string(kv[1]))
+			}
+			w.AddUserProp(args...)
+		}
 	case "rewill":
 		// the SAME *Publish that is already attached is changed through its own
 		// setters and attached again: the last SetWill must win
@@ -748,6 +761,15 @@ func ApplyModel(a *ref.AP, o Op) {
 			fs := append([]ref.Filter{}, a.Filters...)
 			fs[i] = ref.Filter{Name: o.B, Opts: o.ID}
 			a.Filters = fs
+		}
+	case "editwill":
+		if a.Will != nil {
+			w := *a.Will
+			w.Props = append([]ref.Prop{}, a.Will.Props...)
+			for _, kv := range o.KV {
+				w.Props = append(w.Props, ref.Prop{ID: 0x26, K: kv[0], V: kv[1]})
+			}
+			a.Will = &w
 		}
 	case "rewill":
 		w := *o.Will
